@@ -84,9 +84,9 @@ CLAIMED["C15"] = ("other", "Mixed: (proof) the atom-layer operators - EqualityMa
                   "The fix-point clause of of() is not expressible as an inductive invariant and stays bounded.", "5 C15", "string atoms only in the proof part; OrderedSet mixin operators modelled through the verified contract of OrderedSet.__init__",
                   "contract-based deductive verification of the atom layer (T-ATOM, SMT strings) + bounded normal-form sweep")
 CLAIMED["C02"] = ("other", "Mixed: (proof) the combinator layer - flatten_items, MultiMarker.of / MarkerUnion.of (three nested loops with invariants), cnf/dnf same-kind and leaf branches, intersection(), union(), "
-                  "the &/| methods of AnyMarker/EmptyMarker/MultiMarker/MarkerUnion - and the string-atom layer - MarkerExpression._evaluate against its specifier view (both operand orders), _merge_single_markers, MarkerExpression &/|, "
+                  "the &/| methods of AnyMarker/EmptyMarker/MultiMarker/MarkerUnion, MultiMarker.union_simplify / MarkerUnion.intersect_simplify (set algebra over members, comprehension invariant) - and the string-atom layer - MarkerExpression._evaluate against its specifier view (both operand orders), _merge_single_markers, MarkerExpression &/|, "
                   "EqualityMarkerUnion/InequalityMultiMarker replace/&/| over symbolic names, literals and value sets - are verified against 'result evaluates as the conjunction/disjunction of the operands' for all environments; "
-                  "(bounded) version-valued atoms (python_version/python_full_version merging and normalisation, extras), the distributive branch of cnf/dnf and *_simplify are assumed contracts, "
+                  "(bounded) version-valued atoms (python_version/python_full_version merging and normalisation, extras) and the distributive branch of cnf/dnf are assumed contracts, "
                   "exercised by the run-time sweep of the same contract on real markers over the well-defined atom pool and an environment grid.",
                   "5 C02", "assumed (bounded) contracts listed in the evidence; law.C13; A-HASHSEED; recorded finding D14",
                   "contract-based deductive verification of the combinator layer (T-MARK, invariants, z3) + bounded stand-in for the atom layer")
@@ -100,6 +100,11 @@ CLAIMED["C03"] = ("other", "Mixed: (proof) _build_markers, the rewriting done wh
                   "(bounded) parse_marker(text).evaluate(env) against packaging.Marker(text).evaluate(env) for every text over the well-defined atom pool (both operand orders, nested and/or) on the environment grid, "
                   "name-normalisation spellings and set-valued extras / dependency_groups included.", "5 C03", "A-PKG-EVAL (transcription of packaging's fold); atom-level agreement with packaging's _eval_op bounded only; finding D14",
                   "contract-based deductive verification of the parse-tree fold (T-MARK, loop invariant, z3) + bounded comparison with packaging")
+CLAIMED["C17"] = ("other", "Mixed: (proof) the control structure of parse_version_specifier over abstract texts: '<empty>' gives the empty set; a text with '||' is parsed piecewise and returns exactly when every piece is accepted; "
+                  "any other text returns exactly when packaging's SpecifierSet accepts it; in every other case the only exception is dep_logic's InvalidSpecifier (packaging's is translated); from_specifierset folds the clauses "
+                  "with `&` and raises nothing, given a leaf translation that raises nothing; (bounded) acceptance and exception class on the PEP 440 version-text grammar (epochs, pre/post/dev, any number of segments, "
+                  "wildcards, ~=, '||', '<empty>') and near-miss strings against packaging.SpecifierSet.", "5 C17", "A-PKG (SpecifierSet raises or yields clauses), A-STDLIB str ops; that the leaf translation never raises on a "
+                  "clause packaging accepts is per-operator (C04 leaf obligations) + bounded", "contract-based deductive verification of the parser's control structure (abstract texts, reduce invariant, z3) + bounded grammar sweep")
 NA_REASON = "check not built yet in this session (work in progress; see DESIGN.md section 5)"
 ALL = ["C%02d" % i for i in range(1, 20)]
 m = {"version": 1, "setup_cmd": "python3-vt check.py --setup",
